@@ -45,6 +45,7 @@ namespace pika {
 
         while (owner_id_ != threads::detail::invalid_thread_id)
         {
+            PIKA_VERIF_POINT("mtx.wait", this, 0, 0);
             cond_.wait(l, ec);
             if (ec) { return; }
         }
@@ -92,6 +93,7 @@ namespace pika {
         {
             [[maybe_unused]] util::ignore_while_checking il(&l);
 
+            PIKA_VERIF_POINT("mtx.notify", this, 0, 0);
             cond_.notify_one(std::move(l), execution::thread_priority::boost, ec);
         }
     }
@@ -114,6 +116,7 @@ namespace pika {
         threads::detail::thread_id_type self_id = pika::threads::detail::get_self_id();
         if (owner_id_ != threads::detail::invalid_thread_id)
         {
+            PIKA_VERIF_POINT("mtx.twait", this, 0, 0);
             pika::threads::detail::thread_restart_state const reason =
                 cond_.wait_until(l, abs_time, ec);
             if (ec) { return false; }
